@@ -11,7 +11,7 @@ import sys
 SEED = """# Task
 
 You are working in a scratch git worktree of the Python library **pybufrkit** (a pure-Python decoder/encoder for WMO BUFR
-messages): `{wt}`. Work only inside this directory. Never touch or read `/repo` or `/verif`. Do not commit.
+messages): `{wt}`. Work only inside this directory. Never touch or read `/repo` or `/verif`. Do not commit. Never use `git stash` (the stash is shared by all worktrees of the repository; use `git diff > file` and `git apply` / `git checkout -- .` instead).
 Python: `/venv/bin/python` (pybufrkit is installed in editable mode pointing somewhere else, so every script you write must
 start with `import os, sys; sys.path.insert(0, os.getcwd())` and be run from the worktree root so that *this* copy is imported).
 Test suite: `cd {wt} && /venv/bin/python -m pytest -q -p no:cacheprovider -n 4` (45 passed, about 40 s).
@@ -71,7 +71,7 @@ Your final answer: one line per change (title, files touched, verified yes/no).
 TWIN = """# Task
 
 You are working in a scratch git worktree of the Python library **pybufrkit** (a pure-Python decoder/encoder for WMO BUFR
-messages): `{wt}`. Work only inside this directory. Never touch or read `/repo` or `/verif`. Do not commit.
+messages): `{wt}`. Work only inside this directory. Never touch or read `/repo` or `/verif`. Do not commit. Never use `git stash` (the stash is shared by all worktrees of the repository; use `git diff > file` and `git apply` / `git checkout -- .` instead).
 Python: `/venv/bin/python` (pybufrkit is installed in editable mode pointing somewhere else, so every script you write must
 start with `import os, sys; sys.path.insert(0, os.getcwd())` and be run from the worktree root so that *this* copy is imported).
 Test suite: `cd {wt} && /venv/bin/python -m pytest -q -p no:cacheprovider -n 4` (45 passed, about 40 s).
